@@ -308,7 +308,8 @@ pub fn run(ctx: &Ctx) -> Report {
     }
     // schedule search on multi-block files: metadata must survive any completion order of the blocks
     let cj: Judge = &c06::judge;
-    for (name, jobs) in sets::schedule_jobs_level(if ctx.quick() { 0 } else { 1 }, &|s| s).into_iter().filter(|(n, _)| n.starts_with("S2") || n.starts_with("S3") || n.starts_with("tiny")) {
+    for (name, jobs) in sets::schedule_jobs_level(if ctx.quick() { 0 } else { 1 }, &|s| s).into_iter().filter(|(n, _)| n.starts_with("S2") || n.starts_with("S3") || (n.starts_with("tiny") && !(ctx.quick() && n.starts_with("tiny parblock")))) {
+        // (quick: the d <= 2 search on `tiny parblock` is run by C06 with this very judge)
         let st = explore(&ctx.pool, jobs, cj);
         rep.part(&format!("schedule search: {}", name), st, serde_json::json!({"policies": ["P0", "P1"]}));
     }
